@@ -350,6 +350,7 @@ func (lex *Lexer) Lex() *token.Token {
 			goto _test_eof7
 		}
 	st_case_7:
+		// toy simplification, reported by crlf-unit: the comment ends after a CR, the LF of a CR LF pair becomes whitespace
 		goto tr6
 	tr9:
 		if lex.data[lex.p] == '\n' {
